@@ -23,6 +23,9 @@ Definition capw (w : str) : str := match w with [] => [] | c :: r => upper c :: 
 Definition tauri_camel (s : str) : str :=
   match words s with [] => [] | w :: ws => w ++ concat (map capw ws) end.
 
+(* under rename_all = snake_case tauri-macros applies heck's snake_case: the words joined by one underscore *)
+Definition tauri_snake (s : str) : str := join [ "_"%char ] (words s).
+
 Definition is_digit_c (c : ascii) : bool := (48 <=? N_of_ascii c)%N && (N_of_ascii c <=? 57)%N.
 Definition snake_char (c : ascii) : bool := is_us c || is_lower c || is_digit_c c.
 (* a Rust parameter name of the quantifier: over [a-z0-9_], not starting with a digit *)
@@ -48,13 +51,14 @@ Definition rule_eqb (a b : rule) : bool :=
   | _, _ => false
   end.
 
-(* the case Tauri applies to this command: what the command attribute says, else the configured one *)
+(* the key Tauri deserialises for a parameter name: what the command attribute's rename_all says
+   (heck's lowerCamelCase / snake_case), else the configured case *)
 Local Open Scope string_scope.
-Definition spec_rule (cf : cfg) (c : cmd) : rule :=
+Definition spec_key (cf : cfg) (c : cmd) (name : str) : str :=
   match c_macro_case c with
-  | Some s => if str_eqb s (L "snake_case") then RSnake
-              else if str_eqb s (L "camelCase") then RCamel else configured cf
-  | None => configured cf
+  | Some s => if str_eqb s (L "snake_case") then tauri_snake name
+              else if str_eqb s (L "camelCase") then tauri_camel name else spec_name (configured cf) name
+  | None => spec_name (configured cf) name
   end.
 Local Close Scope string_scope.
 
@@ -78,18 +82,18 @@ Definition spec_kind (t : aty) : kind :=
   end.
 Definition spec_opt (t : aty) : bool := match t with APath _ NOption _ => true | _ => false end.
 
-Definition spec_entry (r : rule) (p : param) : list (str * bool) :=
+Definition spec_entry (cf : cfg) (c : cmd) (p : param) : list (str * bool) :=
   match spec_kind (p_ty p) with
   | KInjected => []
-  | KChannel => [(spec_name r (p_name p), false)]
-  | KValue => [(spec_name r (p_name p), spec_opt (p_ty p))]
+  | KChannel => [(spec_key cf c (p_name p), false)]
+  | KValue => [(spec_key cf c (p_name p), spec_opt (p_ty p))]
   end.
 (* one (key, omittable) pair per parameter Tauri fills from the frontend, in parameter order *)
-Definition spec_keys (cf : cfg) (c : cmd) : list (str * bool) := flat_map (spec_entry (spec_rule cf c)) (c_params c).
+Definition spec_keys (cf : cfg) (c : cmd) : list (str * bool) := flat_map (spec_entry cf c) (c_params c).
 Definition spec_value_keys (cf : cfg) (c : cmd) : list str :=
-  flat_map (fun p => match spec_kind (p_ty p) with KValue => [spec_name (spec_rule cf c) (p_name p)] | _ => [] end) (c_params c).
+  flat_map (fun p => match spec_kind (p_ty p) with KValue => [spec_key cf c (p_name p)] | _ => [] end) (c_params c).
 Definition spec_chan_keys (cf : cfg) (c : cmd) : list str :=
-  flat_map (fun p => match spec_kind (p_ty p) with KChannel => [spec_name (spec_rule cf c) (p_name p)] | _ => [] end) (c_params c).
+  flat_map (fun p => match spec_kind (p_ty p) with KChannel => [spec_key cf c (p_name p)] | _ => [] end) (c_params c).
 
 (* ---- the inputs the quantifier speaks about ---- *)
 Definition args_sane (a : option (list garg)) : bool := match a with Some [] => false | _ => true end.
@@ -116,23 +120,21 @@ Definition cfg_dom (cf : cfg) : bool := match rule_of_str (default_case cf) with
 
 (* ---- classes of recorded defects (narrow; premises of the main theorems, and the run-time matcher) ---- *)
 Definition ty_bare_window (t : aty) : bool := match t with APath [] NWindow None => true | _ => false end.
-Definition ty_ipc_channel (t : aty) : bool := match t with APath [SIpc] NChannel (Some (GType :: _)) => true | _ => false end.
 Definition ty_short_request (t : aty) : bool := match t with APath [] NRequest _ | APath [SIpc] NRequest _ => true | _ => false end.
 Definition kf_bare_window (c : cmd) : bool := existsb (fun p => ty_bare_window (p_ty p)) (c_params c).
-Definition kf_ipc_channel (c : cmd) : bool := existsb (fun p => ty_ipc_channel (p_ty p)) (c_params c).
 Definition kf_short_request (c : cmd) : bool := existsb (fun p => ty_short_request (p_ty p)) (c_params c).
 Definition named_by_tauri (p : param) : bool := match spec_kind (p_ty p) with KInjected => false | _ => true end.
-(* the command attribute selects a case that renames some key differently from the configured case *)
+(* the command attribute selects a case that names some key differently from the configured case *)
 Definition kf_macro_case (cf : cfg) (c : cmd) : bool :=
-  negb (rule_eqb (spec_rule cf c) (configured cf)) &&
   existsb (fun p => named_by_tauri p &&
-                    negb (str_eqb (spec_name (spec_rule cf c) (p_name p)) (spec_name (configured cf) (p_name p)))) (c_params c).
-(* camelCase configured and a parameter that gets a key is named with underscores only *)
+                    negb (str_eqb (spec_key cf c (p_name p)) (spec_name (configured cf) (p_name p)))) (c_params c).
+(* camelCase is what Tauri applies and a parameter that gets a key is named with underscores only:
+   Tauri's key is the empty string, the generator (since the call-site guard) emits the name itself *)
 Definition kf_underscore_name (cf : cfg) (c : cmd) : bool :=
   rule_eqb (configured cf) RCamel &&
   existsb (fun p => named_by_tauri p && negb (has_letter (p_name p))) (c_params c).
 Definition kf_any (cf : cfg) (c : cmd) : bool :=
-  kf_bare_window c || kf_ipc_channel c || kf_short_request c || kf_macro_case cf c || kf_underscore_name cf c.
+  kf_bare_window c || kf_short_request c || kf_macro_case cf c || kf_underscore_name cf c.
 
 (* ---- boolean oracle on an observation (list of entries reaching invoke) ---- *)
 Definition kb_eqb (a b : str * bool) : bool := str_eqb (fst a) (fst b) && Bool.eqb (snd a) (snd b).
